@@ -1,6 +1,6 @@
 (** C10 leaf layer: text -> native value for the primitive kinds of the modelled universe, as
     the (repaired) readers of spyne/protocol/_inbase.py and spyne/model/binary.py behave, with
-    Python exceptions as outcomes and the [except] clauses taken from Gen/Pipeline.v.
+    Python exceptions as outcomes and the [except] clauses taken from Gen/ReqPipe.v.
     Definitions only.
 
     The scanners (regular expressions, strptime, int(), base64) are the ones of C08
@@ -8,7 +8,7 @@
     exception flow around the constructors [datetime()], [date()], [time()],
     [pytz.FixedOffset()], which C08 records as [Crash ValueError] and the repaired code
     turns into ValidationError. *)
-From SpyneV Require Export C10.Exn Gen.Pipeline Gen.NumTypes.
+From SpyneV Require Export C10.Exn Gen.ReqPipe Gen.NumTypes.
 From SpyneV Require Export Base.Digits Base.Ext C08.IntModel C08.DtModel C08.DurModel C08.BinModel.
 
 Definition nth_try (k : nat) (l : list (list handler)) : list handler := nth k l [].
